@@ -11,9 +11,19 @@ from .. import build
 LEVEL = 'model_checking'
 
 
-def run_treemc(exe, args, timeout=3000):
-    p = subprocess.run([exe] + [str(a) for a in args], stdout=subprocess.PIPE, stderr=subprocess.STDOUT, timeout=timeout)
-    out = p.stdout.decode(errors='replace')
+def run_treemc(exe, args, timeout=1200):
+    """A run that dies by a signal or does not finish is a violation of the tree code under the explored histories
+    (the harness itself only reads the tree), not an infrastructure error: reported as a VIOL line."""
+    try:
+        p = subprocess.run([exe] + [str(a) for a in args], stdout=subprocess.PIPE, stderr=subprocess.STDOUT, timeout=timeout)
+        out = p.stdout.decode(errors='replace')
+        if p.returncode < 0:
+            out += '\nVIOL crashed-signal-%d tree.c under harness run %s died by signal %d\n' % (-p.returncode, ' '.join(str(a) for a in args), -p.returncode)
+    except subprocess.TimeoutExpired as e:
+        class P:
+            returncode = -9
+        p = P()
+        out = (e.stdout or b'').decode(errors='replace') + '\nVIOL no-termination tree.c under harness run %s did not finish within %d s\n' % (' '.join(str(a) for a in args), timeout)
     stats = None
     viols = []
     states = []
